@@ -502,13 +502,13 @@ func (d Driver) Run(c *core.Ctx) error {
 		go func() { defer wg.Done(); f() }()
 	}
 	stage(func() {
-		collect("quad", tlc.Opts{Module: "Curves", Config: cfg("quad", 3, c.Pick(350, 0)), Seed: c.Seed, Workers: 2})
+		collect("quad", tlc.Opts{Module: "Curves", Config: cfg("quad", 3, c.Pick(350, 2500)), Seed: c.Seed, Workers: 2})
 	})
 	stage(func() {
-		collect("cubic", tlc.Opts{Module: "Curves", Config: cfg("cubic", 3, c.Pick(400, 3000)), Seed: c.Seed + 1, Workers: 2})
+		collect("cubic", tlc.Opts{Module: "Curves", Config: cfg("cubic", 3, c.Pick(400, 2000)), Seed: c.Seed + 1, Workers: 2})
 	})
 	stage(func() {
-		collect("arc", tlc.Opts{Module: "Curves", Config: cfg("arc", 3, c.Pick(150, 1500)), Seed: c.Seed + 2, Workers: 2})
+		collect("arc", tlc.Opts{Module: "Curves", Config: cfg("arc", 3, c.Pick(150, 1000)), Seed: c.Seed + 2, Workers: 2})
 	})
 	wg.Wait()
 	c.Count(nCalls, 0, 0)
